@@ -59,3 +59,9 @@ Definition resolve_names_src : list dstmt :=
   [DGuard "has(effectiveAlias,path)" false (DVal "continue");
    DGuard "fails(r.Resolver.ResolvePackage(path))" false DErr;
    DRet (DVal "set(resolved,path,r.Resolver.ResolvePackage(path))")].
+
+Definition restoreident_src : list dstmt :=
+  [DIf "nil(r.Resolver)" false [DGuard "eq(n.Path,"""")" true (DPanic)];
+   DIf "nil(r.Resolver)" true [DIf "eq(n.Path,"""")" true [DGuard "true(avoid[parentName+"".""+parentField])" false (DPanic); DIf "eq(n.Path,r.Path)" true [DIf "eq(r.packageNames[n.Path],""."")" false [DGuard "eq("""","""")" false (DVal "nil"); DRet (DVal "selector:""""")]; DGuard "eq(r.packageNames[n.Path],"""")" false (DVal "nil"); DRet (DVal "selector:r.packageNames[n.Path]")]; DIf "eq("""",""."")" false [DGuard "eq("""","""")" false (DVal "nil"); DRet (DVal "selector:""""")]; DGuard "eq("""","""")" false (DVal "nil"); DRet (DVal "selector:""""")]];
+   DGuard "eq("""","""")" false (DVal "nil");
+   DRet (DVal "selector:""""")].
